@@ -16,8 +16,8 @@ RACE_BIN = os.path.join(lib.WORK, "harness_race")
 GORACE = "halt_on_error=1 exitcode=66"
 
 # (processes per mode, iterations per process)
-SIZES = {"quick": dict(pipelines=(4, 120), readers=(4, 90)),
-         "thorough": dict(pipelines=(6, 1500), readers=(6, 1100))}
+SIZES = {"quick": dict(pipelines=(4, 120), readers=(4, 90), errsets=(2, 60)),
+         "thorough": dict(pipelines=(6, 1500), readers=(6, 1100), errsets=(4, 700))}
 
 CUTS = {"ToEntry": ["Modules.startEntry", "Modules.setEntryCache"], "Modules.FindModule": ["Modules.Read"]}
 READ_ROOTS = ["ToEntry", "Entry.Find", "Entry.Namespace", "Entry.InstantiatingModule", "Modules.FindModuleByNamespace",
@@ -166,7 +166,9 @@ def table_evidence():
     pkgw = [(fn, nm) for fn, f in tb.items() if not f["init_only"] for k, nm, rw, h in f["items"]
             if k == "IAcc" and rw == "W" and nm.startswith("pkg.")]
     for fn, nm in sorted(set(pkgw)):
-        findings.append("package-level variable %s written outside init, in %s" % (nm[4:], fn))
+        findings.append("package-level variable %s written outside init, in %s (a table shared by all module sets of the process "
+                        "is written during processing; for a variable of an imported type such as sync.Map a method call that "
+                        "is not known to be read-only counts as a write, race free or not)" % (nm[4:], fn))
     exempt = parse_exempt()
     for g in GUARDED:
         rows = [(fn, rw, h) for fn, f in tb.items() for k, nm, rw, h in f["items"] if k == "IAcc" and nm == g
@@ -228,14 +230,14 @@ def run(res, tier, seed, proof):
     if proof["failed"]:
         sizes = SIZES["thorough"]  # the table no longer checks: look harder for a failing run
     jobs = []
-    for mode in ("pipelines", "readers"):
+    for mode in ("pipelines", "readers", "errsets"):
         nproc, iters = sizes[mode]
         for i in range(nproc):
             jobs.append((mode, iters, seed * 1000 + i))
     tmo = 240 if sizes is SIZES["quick"] else 2400
     with ThreadPoolExecutor(max_workers=min(len(jobs), max(2, lib.NCPU // 2))) as ex:
         outs = list(ex.map(lambda j: run_harness(binary, j[0], j[1], j[2], tmo), jobs))
-    runs = {"pipelines": 0, "readers": 0}
+    runs = {"pipelines": 0, "readers": 0, "errsets": 0}
     ops = {}
     bad = 0
     for (mode, iters, sd), (rc, out) in zip(jobs, outs):
@@ -248,28 +250,33 @@ def run(res, tier, seed, proof):
         if kind:
             bad += 1
             if bad <= 3:
-                lines = [l for l in out.splitlines() if l.startswith("DIFF ") or "DATA RACE" in l or l.startswith("  ") and ".go:" in l]
+                lines = [l[:500] for l in out.splitlines() if l.startswith("DIFF ") or "DATA RACE" in l or l.startswith("  ") and ".go:" in l]
                 what = {"race": "DATA RACE reported by the Go race detector",
                         "diff": "a concurrent caller obtained a result that differs from the sequential one",
                         "timeout": "the stress run did not finish (deadlock?)",
                         "crash": "the stress run crashed (rc=%d)" % rc}[kind]
                 res.violation("%s: harness race %s %d %d  -- %s" % (what, mode, iters, sd, " | ".join(l.strip() for l in lines[:6])[:600]),
-                              dict(kind=kind, mode=mode, iterations=iters, seed=sd, race_build=race_on,
+                              dict(kind=kind, mode=mode, iterations=iters, seed=sd, race_build=race_on, first_lines=lines[:4],
                                    cmd="GORACE='%s' %s race %s %d %d %s" % (GORACE, binary, mode, iters, sd, lib.REPO),
                                    output_tail=out[-4000:]))
     if proof["failed"] and findings:
         res.violation("the regenerated access table breaks the lockset obligations: " + "; ".join(findings[:4]),
                       dict(kind="table", findings=findings[:20], failed=proof["failed"]), no_input=True)
     cov.update(
-        evaluations=runs["pipelines"] + runs["readers"],
-        distinct_nontrivial=runs["pipelines"] + runs["readers"],
+        evaluations=sum(runs.values()),
+        distinct_nontrivial=sum(runs.values()),
         goroutine_runs=runs, reader_operations=ops, failing_processes=bad,
         rule="evaluations = goroutine-runs of the stress harness (%s): 8 goroutines per iteration; pipelines = each goroutine loads and "
              "Processes a private module set (6 generated sets with typedefs, identities, groupings, augments, rpc, submodule; "
              "6 groups of /repo testdata) and its canonical dump must equal the sequential dump; readers = on one freshly processed "
              "set all goroutines start with first-time namespace->module lookups, then random read-API calls (ToEntry cache hit, Find "
              "absolute/prefixed/relative of existing nodes, Namespace, InstantiatingModule, FindModuleByNamespace, ReadOnly, "
-             "DefaultValues, GetErrors, Print), every answer compared with the sequential one.  All of them are non-trivial "
+             "DefaultValues, GetErrors, Print), every answer compared with the sequential one; errsets = 7 independent sets that "
+             "contain the same error-producing constructs (malformed posix-patterns, bad range, unknown type, bad typedef) at "
+             "file names and positions of their own are processed one after the other in random orders and 8 at a time in "
+             "parallel, and each set's full error list (positions included) must equal what a FRESH PROCESS handling only that "
+             "set prints (child process `harness race errdump k 0`): results may not depend on what was processed before or "
+             "alongside.  All of them are non-trivial "
              "(every run shares the package-level tables or the processed set with 7 others)."
              % ("built with -race, GORACE=" + GORACE if race_on else "race detector UNAVAILABLE: result comparison only"),
         samples=["harness race %s %d %d" % j for j in jobs[:2] + jobs[-2:]],
